@@ -1,11 +1,656 @@
-// Package c03 - correspondence harness for C03 (stub: not built yet).
+// Package c03 drives the real verifier.Verify over worlds of named trust stores of the three
+// store types (names from a pool of three, so the same name exists under several types),
+// trust policy documents of one to three statements with different registry scopes, both
+// signing schemes and both envelope formats - against an instrumented in-memory trust store
+// and against the real x509TrustStore over a generated directory tree - and observes the
+// authenticity result, the (type, name) sequence of GetCertificates calls and whether the
+// signature was accepted.
 package c03
 
 import (
+	"context"
+	"crypto/x509"
 	"errors"
+	"fmt"
+	"math/rand"
+	"os"
+	"path/filepath"
+	"sort"
+	"strings"
+	"time"
 
+	"github.com/notaryproject/notation-go"
+	"github.com/notaryproject/notation-go/dir"
+	"github.com/notaryproject/notation-go/verifier"
+	"github.com/notaryproject/notation-go/verifier/trustpolicy"
+	"github.com/notaryproject/notation-go/verifier/truststore"
 	"github.com/notaryproject/notation-go/xverif/common"
+	"github.com/opencontainers/go-digest"
+	ocispec "github.com/opencontainers/image-spec/specs-go/v1"
 )
 
+// ---- JSON shapes of the Lean structures -------------------------------------------------
+
+type Store struct {
+	Ty    string `json:"ty"`
+	Name  string `json:"name"`
+	Ok    bool   `json:"ok"`
+	Certs []int  `json:"certs"`
+}
+
+type Stmt struct {
+	Scopes      []string `json:"scopes"`
+	TrustStores []string `json:"trustStores"`
+	Level       string   `json:"level"`
+}
+
+type Input struct {
+	Scheme     string  `json:"scheme"`
+	Chain      []int   `json:"chain"`
+	Statements []Stmt  `json:"statements"`
+	Repo       string  `json:"repo"`
+	World      []Store `json:"world"`
+	Backend    string  `json:"backend"`
+	Format     string  `json:"format"`
+}
+
+type Call struct {
+	Ty   string `json:"ty"`
+	Name string `json:"name"`
+}
+
+type Obs struct {
+	Result   string `json:"result"`
+	Calls    []Call `json:"calls"`
+	Accepted bool   `json:"accepted"`
+}
+
+// ---- the concrete PKI ---------------------------------------------------------------------
+
+// certificate identifiers of the model
+const (
+	leafA  = 0 // chain A: leaf -> intermediate -> root
+	interA = 1
+	rootA  = 2
+	leafB  = 3 // chain B: leaf -> root
+	rootB  = 4
+	selfC  = 5 // chain C: a self-signed signing certificate
+	rootU  = 6 // unrelated root CA
+	selfV  = 7 // unrelated self-signed signing certificate
+	nCerts = 8
+)
+
+var chainIDs = map[string][]int{"A": {leafA, interA, rootA}, "B": {leafB, rootB}, "C": {selfC}}
+var chainNames = []string{"A", "B", "C"}
+
+type pki struct {
+	certs  [nCerts]*x509.Certificate
+	chains map[string]*common.Chain
+	envs   map[string][]byte
+}
+
+var target = ocispec.Descriptor{MediaType: "application/vnd.oci.image.manifest.v1+json", Digest: digest.FromString("c03 artifact"), Size: 12}
+
+func newPKI() *pki {
+	nb := time.Now().Add(-48 * time.Hour)
+	p := &pki{chains: map[string]*common.Chain{}, envs: map[string][]byte{}}
+	p.chains["A"] = common.MakeChain(common.ChainOpts{Tag: "c03-A", Intermediate: true, RootNB: nb, InterNB: nb, LeafNB: nb})
+	p.chains["B"] = common.MakeChain(common.ChainOpts{Tag: "c03-B", RootNB: nb, LeafNB: nb})
+	p.chains["C"] = common.MakeChain(common.ChainOpts{Tag: "c03-C", SelfSignedLeaf: true, LeafNB: nb})
+	for name, ids := range chainIDs {
+		ch := p.chains[name]
+		if len(ch.Certs) != len(ids) {
+			panic("c03: chain length")
+		}
+		for k, id := range ids {
+			p.certs[id] = ch.Certs[k].Cert
+		}
+	}
+	p.certs[rootU] = common.MakeCert(common.CertOpts{Subject: common.Name("root c03-U"), CA: true, PathLen: 1, NotBefore: nb}).Cert
+	p.certs[selfV] = common.MakeCert(common.CertOpts{Subject: common.Name("leaf c03-V"), EKU: []x509.ExtKeyUsage{x509.ExtKeyUsageCodeSigning}, NotBefore: nb}).Cert
+	return p
+}
+
+func (p *pki) env(chain, scheme, format string) []byte {
+	k := chain + "/" + scheme + "/" + format
+	if b, ok := p.envs[k]; ok {
+		return b
+	}
+	sch, media := common.SchemeX509, common.MediaJWS
+	if scheme == "signingAuthority" {
+		sch = common.SchemeAuthority
+	}
+	if format == "cose" {
+		media = common.MediaCOSE
+	}
+	b := common.MustSign(common.EnvOpts{Format: media, Chain: p.chains[chain], Target: &target, Scheme: sch,
+		SigningTime: time.Now().Add(-time.Hour).Truncate(time.Second)})
+	p.envs[k] = b
+	return b
+}
+
+// what the real x509TrustStore accepts: CA or self-signed certificates; root CAs only under tsa
+var caOrSelfSigned = map[int]bool{interA: true, rootA: true, rootB: true, selfC: true, rootU: true, selfV: true}
+var rootCA = map[int]bool{rootA: true, rootB: true, rootU: true}
+
+// ---- abstract cases ------------------------------------------------------------------------
+
+var storeTypes = []string{"ca", "signingAuthority", "tsa"}
+var storeNames = []string{"alpha", "beta", "gamma"}
+
+// place is what the generator put under one (type, name).
+type place struct {
+	ty, name string
+	kind     string // "certs" | "empty" | "broken"
+	certs    []int
+	fault    int // variant of "broken" in the directory back end
+}
+
+type acase struct {
+	scheme, chain, format, backend string
+	stmts                          []Stmt
+	repo                           string
+	places                         []place
+	malformed                      bool // some trustStores value could not be written in a validated policy
+	verifyTimestamp                []string
+	mode                           string
+}
+
+func wantType(scheme string) string {
+	if scheme == "signingAuthority" {
+		return "signingAuthority"
+	}
+	return "ca"
+}
+
+var scopePool = []string{"reg.example/a", "reg.example/b", "reg.example/c"}
+var malformedValues = []string{"alpha", "ca", "", ":alpha", "ca:", "signingAuthority:", "ca:alpha:beta", "signingAuthority:beta:ca", "CA:alpha",
+	"x509:alpha", "ca: alpha", " ca:alpha", "ca;alpha", "tsa", "ca:..", "signingauthority:gamma", "ca:alpha ", "::"}
+
+func pick(r *rand.Rand, xs []string) string { return xs[r.Intn(len(xs))] }
+
+// genList draws a trustStores list: values type:name over the pool (plus the name "delta" that
+// is never placed), with duplicates, several types; `bias` is the probability of the wanted type.
+func genList(r *rand.Rand, want string, bias float64, malformed bool) []string {
+	n := 1 + r.Intn(4)
+	if r.Intn(4) == 0 {
+		n += r.Intn(5)
+	}
+	out := make([]string, 0, n)
+	for k := 0; k < n; k++ {
+		if len(out) > 0 && r.Intn(5) == 0 {
+			out = append(out, out[r.Intn(len(out))]) // a duplicate
+			continue
+		}
+		ty := pick(r, storeTypes)
+		if r.Float64() < bias {
+			ty = want
+		}
+		name := pick(r, storeNames)
+		if r.Intn(25) == 0 {
+			name = "delta"
+		}
+		out = append(out, ty+":"+name)
+	}
+	if malformed {
+		m := 1 + r.Intn(2)
+		for k := 0; k < m; k++ {
+			v := pick(r, malformedValues)
+			pos := r.Intn(len(out) + 1)
+			out = append(out[:pos], append([]string{v}, out[pos:]...)...)
+		}
+	}
+	return out
+}
+
+func listedNames(list []string, ty string) map[string]bool {
+	m := map[string]bool{}
+	for _, e := range list {
+		t, n, ok := strings.Cut(e, ":")
+		if ok && t == ty {
+			m[n] = true
+		}
+	}
+	return m
+}
+
+func genCase(r *rand.Rand) acase {
+	a := acase{}
+	a.scheme = pick(r, []string{"x509", "signingAuthority"})
+	a.chain = pick(r, chainNames)
+	a.format = pick(r, []string{"jws", "cose"})
+	a.backend = pick(r, []string{"mem", "dir"})
+	a.malformed = r.Intn(8) == 0
+	want := wantType(a.scheme)
+	chain := chainIDs[a.chain]
+
+	// statements and scopes
+	nst := 1 + r.Intn(3)
+	scopes := append([]string{}, scopePool...)
+	r.Shuffle(len(scopes), func(i, j int) { scopes[i], scopes[j] = scopes[j], scopes[i] })
+	wildAt := -1
+	if r.Intn(2) == 0 {
+		wildAt = r.Intn(nst)
+	}
+	for k := 0; k < nst; k++ {
+		st := Stmt{Level: pick(r, []string{"strict", "permissive", "audit"})}
+		if k == wildAt {
+			st.Scopes = []string{"*"}
+		} else {
+			st.Scopes = []string{scopes[0]}
+			scopes = scopes[1:]
+			if len(scopes) > nst-k && r.Intn(4) == 0 {
+				st.Scopes = append(st.Scopes, scopes[0])
+				scopes = scopes[1:]
+			}
+		}
+		a.stmts = append(a.stmts, st)
+		a.verifyTimestamp = append(a.verifyTimestamp, "")
+	}
+	// the repository: mostly one that some statement names
+	switch x := r.Intn(10); {
+	case x < 7:
+		st := a.stmts[r.Intn(nst)]
+		a.repo = st.Scopes[r.Intn(len(st.Scopes))]
+		if a.repo == "*" {
+			a.repo = pick(r, scopePool)
+		}
+	case x < 9:
+		a.repo = pick(r, scopePool)
+	default:
+		a.repo = "reg.example/none"
+	}
+	// which statement applies (generator's own view, used only to steer the distribution)
+	app := -1
+	for k, st := range a.stmts {
+		for _, s := range st.Scopes {
+			if s == a.repo {
+				app = k
+			}
+		}
+	}
+	if app < 0 {
+		app = wildAt
+	}
+
+	a.mode = pick(r, []string{"random", "random", "adversarial", "adversarial", "good", "good", "good-broken"})
+	for k := range a.stmts {
+		bias := 0.5
+		if k != app {
+			bias = 0.7 // the other statements tend to list stores that would confer trust
+		}
+		a.stmts[k].TrustStores = genList(r, want, bias, a.malformed && (k == app || r.Intn(2) == 0))
+		if k == app && strings.HasPrefix(a.mode, "good") && len(listedNames(a.stmts[k].TrustStores, want)) == 0 {
+			// the good modes want at least one listed store of the required type
+			ts := a.stmts[k].TrustStores
+			pos := r.Intn(len(ts) + 1)
+			a.stmts[k].TrustStores = append(ts[:pos:pos], append([]string{want + ":" + pick(r, storeNames)}, ts[pos:]...)...)
+		}
+	}
+	var appList []string
+	if app >= 0 {
+		appList = a.stmts[app].TrustStores
+	}
+	listed := listedNames(appList, want)
+
+	// placements
+	randCerts := func(pool []int, max int) []int {
+		n := 1 + r.Intn(max)
+		var out []int
+		for k := 0; k < n; k++ {
+			out = append(out, pool[r.Intn(len(pool))])
+		}
+		return out
+	}
+	unrelated := []int{}
+	inChain := map[int]bool{}
+	for _, c := range chain {
+		inChain[c] = true
+	}
+	for c := 0; c < nCerts; c++ {
+		if !inChain[c] {
+			unrelated = append(unrelated, c)
+		}
+	}
+	// in the directory back end a store holding a non-CA, non-self-signed certificate does not
+	// load: keep such placements to a minority there
+	usable := func(pool []int) []int {
+		if a.backend != "dir" || r.Intn(5) == 0 {
+			return pool
+		}
+		var out []int
+		for _, c := range pool {
+			if caOrSelfSigned[c] {
+				out = append(out, c)
+			}
+		}
+		if len(out) == 0 {
+			return pool
+		}
+		return out
+	}
+	for _, ty := range storeTypes {
+		for _, name := range storeNames {
+			p := place{ty: ty, name: name, kind: "certs", fault: r.Intn(3)}
+			counts := ty == want && listed[name] // a certificate here is allowed to confer trust
+			switch a.mode {
+			case "random":
+				switch x := r.Intn(20); {
+				case x < 4:
+					continue // the store does not exist
+				case x < 6:
+					p.kind = "broken"
+				case x < 7:
+					p.kind = "empty"
+				}
+				if r.Intn(2) == 0 {
+					p.certs = randCerts(usable(chain), 2)
+				} else {
+					p.certs = randCerts(usable(unrelated), 2)
+				}
+				if r.Intn(4) == 0 {
+					p.certs = append(p.certs, randCerts(usable(append(append([]int{}, chain...), unrelated...)), 2)...)
+				}
+			case "adversarial":
+				// chain certificates everywhere they must not count, unrelated ones where they would
+				if counts {
+					p.certs = randCerts(usable(unrelated), 2)
+					if r.Intn(12) == 0 {
+						p.kind = "empty"
+					}
+				} else {
+					p.certs = randCerts(usable(chain), 2)
+					if r.Intn(6) == 0 {
+						continue
+					}
+				}
+			default: // "good", "good-broken": listed stores load; some of them hold a chain certificate
+				if counts {
+					if r.Intn(3) != 0 {
+						p.certs = randCerts(usable(chain), 2)
+					} else {
+						p.certs = randCerts(usable(unrelated), 2)
+					}
+				} else {
+					switch x := r.Intn(10); {
+					case x < 2:
+						continue
+					case x < 4:
+						p.kind = "broken"
+					}
+					p.certs = randCerts(usable(append(append([]int{}, chain...), unrelated...)), 2)
+				}
+			}
+			a.places = append(a.places, p)
+		}
+	}
+	if a.mode == "good-broken" && len(listed) > 0 {
+		// break (or remove) exactly one listed store of the required type
+		var names []string
+		for n := range listed {
+			names = append(names, n)
+		}
+		sort.Strings(names)
+		victim := names[r.Intn(len(names))]
+		for k := range a.places {
+			if a.places[k].ty == want && a.places[k].name == victim {
+				if r.Intn(3) == 0 {
+					a.places = append(a.places[:k], a.places[k+1:]...)
+				} else {
+					a.places[k].kind = "broken"
+				}
+				break
+			}
+		}
+	}
+	// a tsa store in the list switches timestamp verification on (notary.x509): under the strict
+	// level the missing countersignature would be fatal, so those statements verify timestamps
+	// only after certificate expiry (the certificates are valid, hence no timestamp verification)
+	for k, st := range a.stmts {
+		hasTSA := false
+		for _, e := range st.TrustStores {
+			if strings.HasPrefix(e, "tsa:") {
+				hasTSA = true
+			}
+		}
+		if hasTSA && (st.Level == "strict" || r.Intn(3) == 0) {
+			a.verifyTimestamp[k] = string(trustpolicy.OptionAfterCertExpiry)
+		}
+	}
+	return a
+}
+
+// ---- concretisation -----------------------------------------------------------------------
+
+// loggingStore records the calls that reach a real trust store.
+type loggingStore struct {
+	inner truststore.X509TrustStore
+	calls []Call
+}
+
+func (l *loggingStore) GetCertificates(ctx context.Context, storeType truststore.Type, namedStore string) ([]*x509.Certificate, error) {
+	l.calls = append(l.calls, Call{string(storeType), namedStore})
+	return l.inner.GetCertificates(ctx, storeType, namedStore)
+}
+
+func nonNil(xs []int) []int {
+	if xs == nil {
+		return []int{}
+	}
+	return xs
+}
+
+// memWorld builds the instrumented store and the world the model is told about.
+func memWorld(p *pki, a acase) (*common.MemStore, []Store) {
+	ms := common.NewMemStore()
+	var w []Store
+	for _, pl := range a.places {
+		k := pl.ty + ":" + pl.name
+		switch pl.kind {
+		case "broken":
+			ms.Errs[k] = errors.New("scripted load failure")
+			w = append(w, Store{pl.ty, pl.name, false, nonNil(pl.certs)})
+		case "empty":
+			ms.Empty[k] = true
+			w = append(w, Store{pl.ty, pl.name, true, []int{}})
+		default:
+			var cs []*x509.Certificate
+			for _, id := range pl.certs {
+				cs = append(cs, p.certs[id])
+			}
+			ms.Certs[k] = cs
+			w = append(w, Store{pl.ty, pl.name, true, nonNil(pl.certs)})
+		}
+	}
+	return ms, w
+}
+
+// dirWorld writes <root>/truststore/x509/<type>/<name>/*.pem and computes, from what it wrote,
+// what the real store answers: a store loads iff it is a directory holding at least one
+// certificate file and only certificates the store accepts (CA or self-signed; root CA under tsa).
+func dirWorld(p *pki, a acase, root string) []Store {
+	var w []Store
+	for _, pl := range a.places {
+		d := filepath.Join(root, "truststore", "x509", pl.ty, pl.name)
+		must(os.MkdirAll(d, 0o755))
+		st := Store{pl.ty, pl.name, true, []int{}}
+		write := func() {
+			// one file per certificate, or all in one bundle; file names sort in placement order
+			if len(pl.certs) > 1 && pl.fault == 0 {
+				var cs []*x509.Certificate
+				for _, id := range pl.certs {
+					cs = append(cs, p.certs[id])
+				}
+				must(os.WriteFile(filepath.Join(d, "bundle.pem"), common.PEM(cs...), 0o644))
+			} else {
+				for k, id := range pl.certs {
+					var data []byte
+					if (k+pl.fault)%2 == 0 {
+						data = common.PEM(p.certs[id])
+					} else {
+						data = p.certs[id].Raw // DER
+					}
+					must(os.WriteFile(filepath.Join(d, fmt.Sprintf("%02d-cert%d.crt", k, id)), data, 0o644))
+				}
+			}
+			st.Certs = nonNil(pl.certs)
+			for _, id := range pl.certs {
+				if !caOrSelfSigned[id] || (pl.ty == "tsa" && !rootCA[id]) {
+					st.Ok = false
+				}
+			}
+		}
+		switch pl.kind {
+		case "empty":
+			st.Ok = false // "no x509 certificates were found"
+		case "broken":
+			st.Ok = false
+			switch pl.fault {
+			case 0: // the store is a regular file, not a directory
+				must(os.Remove(d))
+				must(os.WriteFile(d, []byte("not a directory"), 0o644))
+				st.Certs = nonNil(pl.certs)
+			case 1: // a file that is not a certificate, next to good ones
+				write()
+				must(os.WriteFile(filepath.Join(d, "zz-garbage.pem"), []byte("this is not a certificate"), 0o644))
+			default: // a sub-directory inside the store
+				write()
+				must(os.MkdirAll(filepath.Join(d, "nested"), 0o755))
+			}
+			st.Ok = false
+		default:
+			write()
+		}
+		w = append(w, st)
+	}
+	return w
+}
+
+func must(err error) {
+	if err != nil {
+		panic(err)
+	}
+}
+
+func runCase(c *common.Ctx, p *pki, a acase, seq int) (Input, Obs) {
+	in := Input{Scheme: a.scheme, Chain: chainIDs[a.chain], Repo: a.repo, Backend: a.backend, Format: a.format, World: []Store{}}
+	var store truststore.X509TrustStore
+	var ms *common.MemStore
+	var ls *loggingStore
+	var root string
+	if a.backend == "mem" {
+		var w []Store
+		ms, w = memWorld(p, a)
+		in.World = append(in.World, w...)
+		store = ms
+	} else {
+		root = filepath.Join(c.WorkDir, fmt.Sprintf("w%d", seq))
+		must(os.MkdirAll(root, 0o755))
+		in.World = append(in.World, dirWorld(p, a, root)...)
+		ls = &loggingStore{inner: truststore.NewX509TrustStore(dir.NewSysFS(root))}
+		store = ls
+	}
+	// the policy document; values a validated policy cannot carry are written after the
+	// verifier has validated the document (the verifier keeps the caller's document)
+	doc := &trustpolicy.OCIDocument{Version: "1.0"}
+	skipRevocation := map[trustpolicy.ValidationType]trustpolicy.ValidationAction{trustpolicy.TypeRevocation: trustpolicy.ActionSkip}
+	for k, st := range a.stmts {
+		in.Statements = append(in.Statements, st)
+		ts := st.TrustStores
+		if a.malformed {
+			ts = []string{"ca:placeholder"}
+		}
+		doc.TrustPolicies = append(doc.TrustPolicies, trustpolicy.OCITrustPolicy{
+			Name: fmt.Sprintf("s%d", k), RegistryScopes: st.Scopes,
+			SignatureVerification: trustpolicy.SignatureVerification{VerificationLevel: st.Level, Override: skipRevocation, VerifyTimestamp: trustpolicy.TimestampOption(a.verifyTimestamp[k])},
+			TrustStores:           append([]string{}, ts...),
+			TrustedIdentities:     []string{"*"},
+		})
+	}
+	v, err := verifier.NewVerifierWithOptions(store, verifier.VerifierOptions{OCITrustPolicy: doc})
+	if err != nil {
+		panic(fmt.Sprintf("c03: the generated policy document is refused: %v", err))
+	}
+	if a.malformed {
+		for k, st := range a.stmts {
+			doc.TrustPolicies[k].TrustStores = append([]string{}, st.TrustStores...)
+		}
+	}
+	media := common.MediaJWS
+	if a.format == "cose" {
+		media = common.MediaCOSE
+	}
+	outcome, verr := v.Verify(context.Background(), target, p.env(a.chain, a.scheme, a.format), notation.VerifierVerifyOptions{
+		ArtifactReference: a.repo + "@" + target.Digest.String(), SignatureMediaType: media})
+	o := Obs{Accepted: verr == nil, Calls: []Call{}}
+	if ms != nil {
+		for _, sc := range ms.Calls {
+			o.Calls = append(o.Calls, Call{sc.Type, sc.Name})
+		}
+	} else {
+		o.Calls = append(o.Calls, ls.calls...)
+		must(os.RemoveAll(root))
+	}
+	var noPolicy notation.ErrorNoApplicableTrustPolicy
+	switch {
+	case outcome == nil && errors.As(verr, &noPolicy):
+		o.Result = "noPolicy"
+	case outcome == nil:
+		panic(fmt.Sprintf("c03: Verify returned no outcome: %v", verr))
+	default:
+		found := 0
+		for _, r := range outcome.VerificationResults {
+			switch r.Type {
+			case trustpolicy.TypeAuthenticity:
+				found++
+				if r.Error == nil {
+					o.Result = "pass"
+				} else {
+					o.Result = "fail"
+				}
+			case trustpolicy.TypeIntegrity:
+				if r.Error != nil {
+					panic(fmt.Sprintf("c03: integrity failed: %v", r.Error))
+				}
+			}
+		}
+		if found != 1 {
+			panic(fmt.Sprintf("c03: %d authenticity results (err=%v)", found, verr))
+		}
+	}
+	return in, o
+}
+
 // Run generates the cases of C03.
-func Run(c *common.Ctx) error { return errors.New("C03: harness not built yet") }
+func Run(c *common.Ctx) error {
+	p := newPKI()
+	n := 4000
+	if c.Thorough() {
+		n = 30000
+	}
+	for k := 0; k < n; k++ {
+		a := genCase(c.Rand)
+		in, o := runCase(c, p, a, k)
+		c.Emit(in, o)
+		c.Count("result=" + o.Result)
+		c.Count("backend=" + a.backend)
+		c.Count("scheme=" + a.scheme)
+		c.Count("format=" + a.format)
+		c.Count("chain=" + a.chain)
+		c.Count("mode=" + a.mode)
+		c.Count("mode=" + a.mode + "/result=" + o.Result)
+		c.Count(fmt.Sprintf("statements=%d", len(a.stmts)))
+		c.Count(fmt.Sprintf("calls=%d", len(o.Calls)))
+		if a.malformed {
+			c.Count("malformed-values")
+		}
+		if o.Accepted {
+			c.Count("accepted")
+		}
+		if o.Result == "fail" && o.Accepted {
+			c.Count("fail-but-logged(audit)")
+		}
+	}
+	c.Note("random worlds: 3 store types x names {alpha,beta,gamma} (same name under several types), each store absent / loadable / empty / failing, holding certificates of the signer's chain (root, intermediate, leaf, self-signed leaf) or unrelated ones; 1-3 statements with disjoint scopes and optional wildcard statement, trustStores lists of 1-9 values with duplicates, all three types, never-placed name delta; modes random / adversarial (chain certificates only where they must not count) / good / good with one listed store broken; one case in eight writes values a validated policy cannot carry (missing separator, empty name, two separators, unknown type) into the document after construction; both schemes, JWS and COSE, levels strict/permissive/audit, revocation skipped, trustedIdentities *; back ends: instrumented MemStore and the real x509TrustStore over a directory tree (load result of a directory store computed by the harness from what it wrote)")
+	return nil
+}
